@@ -13,7 +13,7 @@ use crate::world::*;
 use async_trait::async_trait;
 use cfdp_core::{
     daemon::{EntityConfig, Indication, PutRequest, UserPrimitive},
-    filestore::NativeFileStore,
+    filestore::{FileStoreRequest, NativeFileStore},
     pdu::{
         ACKSubDirective, CRCFlag, Condition, DeliveryCode, Direction, FileDataPDU, FileSizeFlag, FileStatusCode, Finished, NakOrKeepAlive, NegativeAcknowledgmentPDU, Operations, PDUDirective, PDUEncode,
         PDUHeader, PDUPayload, PDUType, PositiveAcknowledgePDU, SegmentRequestForm, SegmentationControl, SegmentedData, TransactionStatus, TransmissionMode, UnsegmentedFileData, VariableID, PDU, U3,
@@ -104,6 +104,8 @@ pub struct DScn {
     pub default_cfg: Option<Scenario>,
     /// the source names are symbolic links (inside the sender's root) to the files holding the data
     pub src_symlink: bool,
+    /// the Put requests name no destination file (empty name)
+    pub empty_dst: bool,
 }
 
 /// the explorer's alphabet
@@ -215,6 +217,21 @@ struct Exec {
     no_txn_for: Vec<TransactionID>,
     /// encodings of the PDUs the link dropped
     dropped: Vec<Vec<u8>>,
+    /// (daemon, transaction) pairs suspended by their user and not yet resumed
+    suspended: std::collections::HashSet<(usize, TransactionID)>,
+    /// time was let pass to a timer expiry while PDUs were in flight (a link delay longer than a timer)
+    delayed: bool,
+    /// per (transaction, role): task loops started / ended, as reported by hook H5
+    loops: HashMap<(TransactionID, &'static str), (u32, u32)>,
+    /// (daemon, encoding) -> virtual ms of the last time this daemon handed these octets to its transport
+    emitted_at: HashMap<(usize, Vec<u8>), u64>,
+    /// (daemon, transaction) -> virtual ms of the last PDU handed to that daemon for it
+    delivered_at: HashMap<(usize, TransactionID), u64>,
+    /// (daemon, transaction) -> conditions its user has been told so far (Finished / Fault / Abandon)
+    told: HashMap<(usize, TransactionID), Vec<Condition>>,
+    /// an entity gave up on one of its limits while some transaction was suspended by its user
+    /// (for that entity the suspension was a delay longer than its timers: C02's premise is gone)
+    gave_up_during_suspension: bool,
 }
 
 thread_local! {
@@ -268,6 +285,16 @@ impl Exec {
                 std::fs::write(d[t.from].root.join(format!("src{}.bin", k)), file_bytes(t.size, k)).unwrap();
             }
         }
+        // files the scenario wants present in the receivers' roots (filestore requests act on them)
+        for t in scn.txns.iter() {
+            for (name, content) in &scn.cfg.pre_files {
+                let p = d[t.to].root.join(name);
+                if let Some(parent) = p.parent() {
+                    let _ = std::fs::create_dir_all(parent);
+                }
+                std::fs::write(p, content).unwrap();
+            }
+        }
         let n = scn.daemons;
         let nu = scn.user.len();
         Exec {
@@ -293,6 +320,13 @@ impl Exec {
             initial_inds: vec![],
             no_txn_for: vec![],
             dropped: vec![],
+            suspended: Default::default(),
+            delayed: false,
+            loops: HashMap::new(),
+            emitted_at: HashMap::new(),
+            delivered_at: HashMap::new(),
+            told: HashMap::new(),
+            gave_up_during_suspension: false,
             scn,
         }
     }
@@ -328,6 +362,11 @@ impl Exec {
         let mut twin_inds: Vec<String> = self.initial_inds.drain(..).collect();
         let mut timeouts_seen: Vec<(usize, Side)> = vec![];
         for (id, role, step) in events {
+            match step {
+                LoopStep::Spawned(_) => self.loops.entry((id, role)).or_insert((0, 0)).0 += 1,
+                LoopStep::Exit => self.loops.entry((id, role)).or_insert((0, 0)).1 += 1,
+                _ => {}
+            }
             let side = if role == "send" { Side::S } else { Side::R };
             let Some(ti) = self.twin_idx(&id) else {
                 if self.no_txn_for.contains(&id) {
@@ -492,6 +531,16 @@ impl Exec {
         for (di, dh) in self.d.iter_mut().enumerate() {
             while let Ok(i) = dh.ind_rx.try_recv() {
                 let id = ind_id(&i);
+                match &i {
+                    Indication::Finished(f) => self.told.entry((di, id)).or_default().push(f.report.condition),
+                    Indication::Abandon(f) | Indication::Fault(f) => {
+                        self.told.entry((di, id)).or_default().push(f.condition);
+                        if !self.suspended.is_empty() && matches!(f.condition, Condition::InactivityDetected | Condition::PositiveLimitReached | Condition::NakLimitReached | Condition::CheckLimitReached) {
+                            self.gave_up_during_suspension = true;
+                        }
+                    }
+                    _ => {}
+                }
                 if let Some(t) = self.twins.iter().find(|t| t.id == id) {
                     let ghosted = di == t.spec.to && self.ghost.contains_key(&id);
                     if di == t.spec.from || di == t.spec.to {
@@ -692,11 +741,86 @@ impl Exec {
         v
     }
 
+    /// direct (twin-independent) oracles on a PDU a daemon hands to its transport
+    fn note_emission(&mut self, dmn: usize, p: &PDU, bytes: &Vec<u8>) {
+        // direct oracles on what a daemon hands to its transport.
+        // C17: the same octets again, with nothing received for that transaction in between,
+        // is a timer retransmission — never earlier than the configured timeout of that timer
+        {
+            let id = TransactionID(p.header.source_entity_id, p.header.transaction_sequence_number);
+            let now = self.now_ms();
+            let timeout_s = match p.payload {
+                PDUPayload::Directive(Operations::EoF(_)) | PDUPayload::Directive(Operations::Finished(_)) => Some(("positive-acknowledgement", self.scn.cfg.t_ack)),
+                PDUPayload::Directive(Operations::Nak(_)) => Some(("NAK", self.scn.cfg.t_nak)),
+                _ => None,
+            };
+            if let (Some((which, t)), Some(prev)) = (timeout_s, self.emitted_at.get(&(dmn, bytes.clone())).copied()) {
+                // (Take times stand for send times; PDUs handed over back to back are answered
+                // back to back, so anything closer than a second is not a timer's doing)
+                let heard_since = self.delivered_at.get(&(dmn, id)).map_or(false, |d| *d > prev);
+                if !heard_since && self.twin_idx(&id).is_some() && now >= prev + 1000 && now + 100 < prev + t as u64 * 1000 {
+                    self.violations.push(("retransmission-early".into(), pdu_kind_str(p).into(), format!("daemon {} retransmitted {} {} ms after the previous transmission, having received nothing for that transaction in between; the {} timeout is {} s", dmn, pdu_brief(p), now - prev, which, t)));
+                }
+            }
+            self.emitted_at.insert((dmn, bytes.clone()), now);
+            // C07: no file data PDU carries more than one configured segment
+            if let PDUPayload::FileData(fd) = &p.payload {
+                let n = match fd {
+                    FileDataPDU::Unsegmented(u) => u.file_data.len(),
+                    FileDataPDU::Segmented(sg) => sg.file_data.len(),
+                };
+                if n > self.scn.cfg.seg as usize && self.twin_idx(&id).is_some() && self.scn.default_cfg.is_none() {
+                    self.violations.push(("filedata-exceeds-segment-size".into(), "".into(), format!("daemon {} sent a file data PDU of transaction {:?} carrying {} octets; the configured segment size is {}", dmn, id, n, self.scn.cfg.seg)));
+                }
+            }
+        }
+        // direct oracle (C07, daemon level: the Put request is turned into metadata by the
+        // daemon, not by the transaction): the sizes stated are those of the source data
+        {
+            let id = TransactionID(p.header.source_entity_id, p.header.transaction_sequence_number);
+            if let (Some(ti), Direction::ToReceiver) = (self.twin_idx(&id), &p.header.direction) {
+                let size = self.twins[ti].spec.size;
+                if let PDUPayload::Directive(op) = &p.payload {
+                    match op {
+                        Operations::Metadata(m) if m.file_size != size => {
+                            self.violations.push(("metadata-size-wrong".into(), "".into(), format!("the Metadata PDU of transaction {:?} states file size {} but the source holds {} bytes", id, m.file_size, size)));
+                        }
+                        Operations::Metadata(m) => {
+                            let want_src = format!("src{}.bin", ti);
+                            let want_dst = if self.scn.empty_dst { String::new() } else { format!("dst{}.bin", ti) };
+                            let reqs: Vec<FileStoreRequest> = m
+                                .options
+                                .iter()
+                                .filter_map(|o| match o {
+                                    cfdp_core::pdu::MetadataTLV::FileStoreRequest(r) => Some(r.clone()),
+                                    _ => None,
+                                })
+                                .collect();
+                            if m.source_filename.as_str() != want_src || m.destination_filename.as_str() != want_dst || reqs != self.scn.cfg.fs_requests() {
+                                self.violations.push((
+                                    "metadata-fields-wrong".into(),
+                                    "".into(),
+                                    format!("the Metadata PDU of transaction {:?} carries names {:?} -> {:?} and requests {:?}; the Put request named {:?} -> {:?} with requests {:?}", id, m.source_filename, m.destination_filename, reqs, want_src, want_dst, self.scn.cfg.fs_requests()),
+                                ));
+                            }
+                        }
+                        Operations::EoF(e) if e.condition == Condition::NoError && e.file_size != size => {
+                            self.violations.push(("eof-size-wrong".into(), "".into(), format!("the EOF PDU of transaction {:?} states file size {} but the source holds {} bytes", id, e.file_size, size)));
+                        }
+                        _ => {}
+                    }
+                }
+            }
+        }
+    }
+
     async fn inject(&mut self, to: usize, bytes: &[u8]) {
         if let Ok(pdu) = PDU::decode(&mut &bytes[..]) {
             let id = TransactionID(pdu.header.source_entity_id, pdu.header.transaction_sequence_number);
             self.pending_cmd.entry((to, id)).or_default().push_back(pdu.clone());
             self.finished_pdus.push((to, bytes.to_vec()));
+            let now = self.now_ms();
+            self.delivered_at.insert((to, id), now);
             let _ = self.d[to].in_tx.send(pdu).await;
         }
     }
@@ -708,10 +832,10 @@ impl Exec {
                 let (tx, rx) = oneshot::channel();
                 let req = PutRequest {
                     source_filename: format!("src{}.bin", k).into(),
-                    destination_filename: format!("dst{}.bin", k).into(),
+                    destination_filename: if self.scn.empty_dst { "".into() } else { format!("dst{}.bin", k).into() },
                     destination_entity_id: ent(spec.to),
                     transmission_mode: if spec.ack { TransmissionMode::Acknowledged } else { TransmissionMode::Unacknowledged },
-                    filestore_requests: vec![],
+                    filestore_requests: self.scn.cfg.fs_requests(),
                     message_to_user: vec![],
                 };
                 self.d[spec.from].prim_tx.send(UserPrimitive::Put(req, tx)).await.map_err(|_| "daemon primitive channel closed".to_string())?;
@@ -725,7 +849,7 @@ impl Exec {
                 let mut cfg = self.scn.cfg.clone();
                 cfg.ack = spec.ack;
                 cfg.file_size = Some(spec.size);
-                let ids = WorldIds { src_ent: id.0, dst_ent: ent(spec.to), seq: id.1, src_name: format!("src{}.bin", k), dst_name: format!("dst{}.bin", k) };
+                let ids = WorldIds { src_ent: id.0, dst_ent: ent(spec.to), seq: id.1, src_name: format!("src{}.bin", k), dst_name: if self.scn.empty_dst { String::new() } else { format!("dst{}.bin", k) } };
                 let mut w = World::new_in(Arc::new(cfg), self.dir.join(format!("twin{}", k)), ids, true);
                 // same content as the real source
                 w.src = file_bytes(spec.size, *k);
@@ -748,25 +872,7 @@ impl Exec {
                 self.quiesce().await;
                 let got = self.d[*dmn].out_rx.try_recv().map_err(|_| format!("Take on daemon {}: the transport slot was empty although the twin says a PDU was sent", dmn))?;
                 let bytes = got.1.clone().encode();
-                // direct oracle (C07, daemon level: the Put request is turned into metadata by the
-                // daemon, not by the transaction): the sizes stated are those of the source data
-                {
-                    let id = TransactionID(got.1.header.source_entity_id, got.1.header.transaction_sequence_number);
-                    if let (Some(ti), Direction::ToReceiver) = (self.twin_idx(&id), &got.1.header.direction) {
-                        let size = self.twins[ti].spec.size;
-                        if let PDUPayload::Directive(op) = &got.1.payload {
-                            match op {
-                                Operations::Metadata(m) if m.file_size != size => {
-                                    self.violations.push(("metadata-size-wrong".into(), "".into(), format!("the Metadata PDU of transaction {:?} states file size {} but the source holds {} bytes", id, m.file_size, size)));
-                                }
-                                Operations::EoF(e) if e.condition == Condition::NoError && e.file_size != size => {
-                                    self.violations.push(("eof-size-wrong".into(), "".into(), format!("the EOF PDU of transaction {:?} states file size {} but the source holds {} bytes", id, e.file_size, size)));
-                                }
-                                _ => {}
-                            }
-                        }
-                    }
-                }
+                self.note_emission(*dmn, &got.1, &bytes);
                 let want = self.slot_expect[*dmn].pop_front().ok_or_else(|| "internal: slot bookkeeping".to_string())?;
                 if bytes != want {
                     return Err(format!(
@@ -814,6 +920,9 @@ impl Exec {
                 self.inject(to, &bytes).await;
             }
             Act::Advance => {
+                if !self.inflight.is_empty() {
+                    self.delayed = true;
+                }
                 let mut min: Option<Duration> = None;
                 for t in &self.twins {
                     for side in [Side::S, Side::R] {
@@ -850,6 +959,15 @@ impl Exec {
                     Side::S => self.twins[ti].spec.from,
                     Side::R => self.twins[ti].spec.to,
                 };
+                match op {
+                    UserOp::Suspend => {
+                        self.suspended.insert((dmn, id));
+                    }
+                    UserOp::Resume => {
+                        self.suspended.remove(&(dmn, id));
+                    }
+                    _ => {}
+                }
                 let prim = match op {
                     UserOp::Cancel => UserPrimitive::Cancel(id),
                     UserOp::Suspend => UserPrimitive::Suspend(id),
@@ -899,6 +1017,17 @@ impl Exec {
     }
 }
 
+fn pdu_kind_str(p: &PDU) -> &'static str {
+    match &p.payload {
+        PDUPayload::FileData(_) => "FileData",
+        PDUPayload::Directive(Operations::EoF(_)) => "EOF",
+        PDUPayload::Directive(Operations::Finished(_)) => "Finished",
+        PDUPayload::Directive(Operations::Nak(_)) => "NAK",
+        PDUPayload::Directive(Operations::Metadata(_)) => "Metadata",
+        _ => "other",
+    }
+}
+
 // small extension of World used only here
 impl World {
     pub fn take_initial_indications(&mut self) -> Vec<Indication> {
@@ -908,6 +1037,8 @@ impl World {
 
 /// run one schedule: `prefix` choices, then the default (first enabled action) until the end
 pub fn run_schedule(scn: &DScn, prefix: &[usize]) -> RunResult {
+    start_watchdog();
+    heartbeat(Some((&scn.name, prefix, &[])));
     let rt = tokio::runtime::Builder::new_current_thread().enable_time().start_paused(true).build().unwrap();
     let res = rt.block_on(async {
         let mut ex = Exec::new(scn.clone()).await;
@@ -919,7 +1050,15 @@ pub fn run_schedule(scn: &DScn, prefix: &[usize]) -> RunResult {
         if let Err(e) = ex.sync().await {
             divergence = Some(e);
         }
+        // self-test of the direct oracles (never set by the registered commands): leave the model
+        // after n steps on purpose, so that the run-on judgement is exercised on a tree on which
+        // nothing is wrong
+        let pump_at: Option<usize> = std::env::var("VERIF_E2_PUMP_AT").ok().and_then(|s| s.parse().ok());
         while divergence.is_none() && step < scn.horizon {
+            if pump_at == Some(step) {
+                divergence = Some("forced (VERIF_E2_PUMP_AT)".into());
+                break;
+            }
             let en = ex.enabled();
             if en.is_empty() {
                 completed = true;
@@ -933,6 +1072,7 @@ pub fn run_schedule(scn: &DScn, prefix: &[usize]) -> RunResult {
             points.push((en.len(), choice));
             let a = en[choice].clone();
             acts.push(format!("{:?}", a));
+            heartbeat(Some((&scn.name, prefix, &acts)));
             if std::env::var("VERIF_E2_DEBUG").is_ok() {
                 println!("{:?}   (of {:?})", a, en);
             }
@@ -954,24 +1094,72 @@ pub fn run_schedule(scn: &DScn, prefix: &[usize]) -> RunResult {
             }
             step += 1;
         }
-        // A single acknowledged transaction that departed from its model: the real daemons are
-        // left to run on by themselves over a faithful FIFO link, and the transfer is judged
-        // directly against C02 — which promises completion when no PDU was lost twice (fewer
-        // consecutive losses than the limit of 2) and nothing was delayed past a timer. (The twin cannot be the judge
-        // here: it does not contain the daemon's routing.)
-        let premise = scn.txns.len() == 1
-            && scn.txns[0].ack
-            && scn.user.is_empty()
-            && !scn.strays
-            && !scn.bursts
-            && scn.cfg.handlers.is_empty()
-            && scn.cfg.max_count >= 2
-            && scn.default_cfg.is_none()
-            // no PDU lost twice (retransmissions are octet-identical): fewer consecutive losses than the limit of 2
-            && (0..ex.dropped.len()).all(|i| (0..i).all(|j| ex.dropped[i] != ex.dropped[j]))
-            && !acts.iter().any(|a| a.starts_with("Advance"));
-        if premise && divergence.as_ref().map_or(false, |d| !d.starts_with("AMBIGUOUS-TIMERS")) && std::env::var("VERIF_E2_NO_PUMP").is_err() {
+        // ---- direct (twin-independent) judgement of a single transaction on the real daemons.
+        // Used when the run left the transaction model (divergence), did not end within the step
+        // horizon, or ended with something unexpected sitting in a transport slot. The twin cannot
+        // be the judge of the daemon's own layer (routing, spawning, the task loops): the real
+        // daemons are left to run on by themselves over a faithful FIFO link for twice the C03
+        // bound, and what they did is judged against what C02 / C03 / C19 promise outright.
+        let single = scn.txns.len() == 1 && !scn.strays && !scn.bursts && scn.cfg.handlers.is_empty() && scn.cfg.max_count >= 2 && scn.default_cfg.is_none();
+        let user_ops: Vec<UserOp> = scn.user.iter().enumerate().filter(|(i, _)| ex.user_used[*i]).map(|(_, u)| u.2).collect();
+        let only_suspension = user_ops.iter().all(|o| matches!(o, UserOp::Suspend | UserOp::Resume | UserOp::Report | UserOp::PromptNak | UserOp::PromptKeepAlive));
+        let real_divergence = divergence.as_ref().map_or(false, |d| !d.starts_with("AMBIGUOUS-TIMERS") && !d.starts_with("replay divergence"));
+        // (1) what sits in the transport slots beyond what the model says was sent
+        let mut unexpected: Vec<(usize, PDU)> = vec![];
+        // (only where a suspension is in force: elsewhere a receiver started by a late duplicate —
+        // whose steps are not modelled — may legitimately have left something there)
+        if single && !ex.suspended.is_empty() && ex.ghost.is_empty() && std::env::var("VERIF_E2_NO_PUMP").is_err() {
+            for i in 0..ex.d.len() {
+                if !ex.suspended.iter().any(|(d, _)| *d == i) {
+                    continue;
+                }
+                let mut expect: VecDeque<Vec<u8>> = ex.slot_expect[i].clone();
+                let _ = ex.d[i].take_tx.send(());
+                ex.quiesce().await;
+                while let Ok((dest, pdu)) = ex.d[i].out_rx.try_recv() {
+                    let bytes = pdu.clone().encode();
+                    if expect.front() == Some(&bytes) {
+                        expect.pop_front();
+                    } else {
+                        unexpected.push((i, pdu.clone()));
+                    }
+                    if let Some(j) = ex.daemon_of(&dest) {
+                        ex.inflight.push(Flight { to: j, bytes });
+                    }
+                    let _ = ex.d[i].take_tx.send(());
+                    ex.quiesce().await;
+                }
+            }
+            for (dmn, p) in &unexpected {
+                let id = TransactionID(p.header.source_entity_id, p.header.transaction_sequence_number);
+                let forbidden = matches!(&p.payload, PDUPayload::FileData(_))
+                    || matches!(&p.payload, PDUPayload::Directive(Operations::Metadata(_)) | PDUPayload::Directive(Operations::EoF(_)) | PDUPayload::Directive(Operations::Nak(_)) | PDUPayload::Directive(Operations::Finished(_)));
+                if ex.suspended.contains(&(*dmn, id)) && forbidden {
+                    ex.violations.push(("transmitted-while-suspended".into(), format!("{}", if *dmn == scn.txns[0].from { "S" } else { "R" }), format!("transaction {:?} is suspended by its user at daemon {} and that daemon transmitted {}", id, dmn, pdu_brief(p))));
+                } else if divergence.is_none() {
+                    divergence = Some(format!("daemon {} transmitted {} which no step of its transaction loops accounts for", dmn, pdu_brief(p)));
+                }
+            }
+        }
+        let real_divergence = divergence.as_ref().map_or(false, |d| !d.starts_with("AMBIGUOUS-TIMERS") && !d.starts_with("replay divergence"));
+        // (2) let the daemons run on and judge the outcome
+        if single && (real_divergence || !completed) && std::env::var("VERIF_E2_NO_PUMP").is_err() {
             let spec = scn.txns[0].clone();
+            let id = ex.ids.first().cloned();
+            // no PDU lost twice (retransmissions are octet-identical): fewer consecutive losses than the limit of 2
+            let loss_premise = (0..ex.dropped.len()).all(|i| (0..i).all(|j| ex.dropped[i] != ex.dropped[j])) && !ex.delayed;
+            let was_suspended = user_ops.iter().any(|o| *o == UserOp::Suspend);
+            // every suspension ends: the user resumes
+            if let Some(id) = id {
+                let still: Vec<(usize, TransactionID)> = ex.suspended.iter().cloned().collect();
+                for (dmn, sid) in still {
+                    if sid == id {
+                        let _ = ex.d[dmn].prim_tx.send(UserPrimitive::Resume(id)).await;
+                        ex.quiesce().await;
+                    }
+                }
+                ex.suspended.clear();
+            }
             let started = tokio::time::Instant::now();
             let deadline = Duration::from_millis(2 * crate::mons::c03_bound(&scn.cfg) + 10_000);
             let flights: Vec<Flight> = ex.inflight.drain(..).collect();
@@ -981,8 +1169,12 @@ pub fn run_schedule(scn: &DScn, prefix: &[usize]) -> RunResult {
                     ex.quiesce().await;
                 }
             }
+            let lossy = user_ops.iter().any(|o| *o == UserOp::Cancel);
+            let mut lost_once: std::collections::HashSet<Vec<u8>> = ex.dropped.iter().cloned().collect();
+            let mut late_r_conditions: Vec<Condition> = vec![];
             let mut pumped = 0usize;
             while started.elapsed() < deadline && pumped < 100_000 {
+                heartbeat(Some((&scn.name, prefix, &acts)));
                 let mut moved = false;
                 for i in 0..ex.d.len() {
                     let _ = ex.d[i].take_tx.send(());
@@ -990,32 +1182,98 @@ pub fn run_schedule(scn: &DScn, prefix: &[usize]) -> RunResult {
                     while let Ok((dest, pdu)) = ex.d[i].out_rx.try_recv() {
                         moved = true;
                         pumped += 1;
+                        let b = pdu.clone().encode();
+                        ex.note_emission(i, &pdu, &b);
+                        // after a cancel the link stays within C10's "any link behaviour" and C02's
+                        // premise at once: the first copy of every distinct PDU is lost, every
+                        // retransmission (the same octets again) gets through
+                        let lose = lossy && lost_once.insert(b.clone());
+                        if std::env::var("VERIF_E2_DEBUG").is_ok() {
+                            println!("  run-on t={}ms daemon {} emits {}{}", ex.now_ms(), i, pdu_brief(&pdu), if lose { "  (first copy: lost)" } else { "" });
+                        }
+                        if lose {
+                            continue;
+                        }
+                        if let Some(j) = ex.daemon_of(&dest) {
+                            let tid = TransactionID(pdu.header.source_entity_id, pdu.header.transaction_sequence_number);
+                            let now = ex.now_ms();
+                            ex.delivered_at.insert((j, tid), now);
+                        }
                         if let Some(j) = ex.daemon_of(&dest) {
                             let _ = ex.d[j].in_tx.send(pdu).await;
                             ex.quiesce().await;
                         }
                     }
                 }
-                ex.trace.borrow_mut().clear();
+                let evs: Vec<(TransactionID, &'static str, LoopStep)> = ex.trace.borrow_mut().drain(..).collect();
+                for (tid, role, st) in evs {
+                    match st {
+                        LoopStep::Spawned(_) => ex.loops.entry((tid, role)).or_insert((0, 0)).0 += 1,
+                        LoopStep::Exit => ex.loops.entry((tid, role)).or_insert((0, 0)).1 += 1,
+                        _ => {}
+                    }
+                }
+                // what the receiving user is told from now on
+                while let Ok(i) = ex.d[spec.to].ind_rx.try_recv() {
+                    if Some(ind_id(&i)) == id {
+                        match &i {
+                            Indication::Finished(f) => late_r_conditions.push(f.report.condition),
+                            Indication::Abandon(f) | Indication::Fault(f) => late_r_conditions.push(f.condition),
+                            _ => {}
+                        }
+                    }
+                }
                 if !moved {
                     tokio::time::advance(Duration::from_secs(1)).await;
                 }
             }
+            let why = match &divergence {
+                Some(d) => format!("the real daemon had left the transaction model: {}", d),
+                None => "the schedule had not ended within the step horizon".to_string(),
+            };
             let real = std::fs::read(ex.d[spec.to].root.join("dst0.bin")).ok();
-            if real.as_deref() != Some(file_bytes(spec.size, 0).as_slice()) {
+            let cancelled = user_ops.iter().any(|o| *o == UserOp::Cancel);
+            if spec.ack && loss_premise && only_suspension && !ex.gave_up_during_suspension && real.as_deref() != Some(file_bytes(spec.size, 0).as_slice()) {
                 ex.violations.push((
-                    "transfer-not-completed".into(),
+                    if was_suspended { "transfer-not-completed-after-resume" } else { "transfer-not-completed" }.into(),
                     "single-acknowledged-transaction".into(),
                     format!(
-                        "acknowledged transfer of {} bytes with no PDU lost twice and nothing delayed: the real daemons were left running for {} virtual seconds over a faithful link and the destination file is {} (the real daemon had left the transaction model: {})",
+                        "acknowledged transfer of {} bytes with no PDU lost twice and nothing delayed{}: the real daemons were left running for {} virtual seconds over a faithful link and the destination file is {} ({})",
                         spec.size,
+                        if was_suspended { ", suspended and resumed by its user" } else { "" },
                         deadline.as_secs(),
                         match &real {
                             None => "absent".to_string(),
                             Some(b) => format!("{} bytes, not the source", b.len()),
                         },
-                        divergence.clone().unwrap_or_default()
+                        why
                     ),
+                ));
+            }
+            // whatever happened, every task loop of the transaction has ended by now (twice C03's bound)
+            if let Some(id) = id {
+                let alive: Vec<&str> = ["send", "recv"].into_iter().filter(|r| ex.loops.get(&(id, *r)).map_or(false, |c| c.0 > c.1)).collect();
+                if !alive.is_empty() {
+                    ex.violations.push((
+                        "transaction-never-ends".into(),
+                        alive.join("+"),
+                        format!("{} virtual seconds after the last scheduled event, with every suspension resumed, the {} task loop of transaction {:?} is still running ({})", deadline.as_secs(), alive.join(" and the "), id, why),
+                    ));
+                }
+            }
+            // a cancel at the sender reaches a reachable receiver: what the receiving user is told
+            // afterwards is the cancel, not a limit of its own
+            let cancel_at_s = scn.user.iter().enumerate().any(|(i, u)| ex.user_used[i] && u.2 == UserOp::Cancel && u.1 == Side::S);
+            if let Some(id) = id {
+                let mut all = ex.told.get(&(spec.to, id)).cloned().unwrap_or_default();
+                all.extend(late_r_conditions.iter().cloned());
+                late_r_conditions = all;
+            }
+            if cancelled && cancel_at_s && loss_premise && !late_r_conditions.is_empty() && !late_r_conditions.iter().any(|c| matches!(c, Condition::CancelReceived | Condition::NoError)) {
+                ex.violations.push((
+                    "cancel-not-propagated".into(),
+                    format!("{:?}", late_r_conditions[0]),
+                    format!("the sending user cancelled, no PDU was lost twice and nothing was delayed, yet the receiving user is told {:?} and never the cancel ({})", late_r_conditions, why),
                 ));
             }
         }
@@ -1037,6 +1295,30 @@ pub fn run_schedule(scn: &DScn, prefix: &[usize]) -> RunResult {
                     let exited = if side == Side::S { t.exited_s } else { t.exited_r };
                     if over != (exited || t.world.life(side) == Life::NotCreated) && t.world.life(side) != Life::Dead {
                         divergence = Some(format!("transaction {} {:?}: twin over={} real loop exited={}", k, side, over, exited));
+                    }
+                }
+            }
+            // user requests that name a transaction which has ended, or one that never existed, leave
+            // the daemon running (the Put below must still be accepted)
+            {
+                let mut ids: Vec<(usize, TransactionID)> = ex.twins.iter().map(|t| (t.spec.from, t.id)).collect();
+                ids.extend(ex.twins.iter().map(|t| (t.spec.to, t.id)));
+                ids.push((0, TransactionID(VariableID::from(99u16), VariableID::from(1234u16))));
+                for (dmn, id) in ids {
+                    for prim in [
+                        UserPrimitive::Cancel(id),
+                        UserPrimitive::Suspend(id),
+                        UserPrimitive::Resume(id),
+                        UserPrimitive::Prompt(id, NakOrKeepAlive::Nak),
+                        UserPrimitive::Report(id, oneshot::channel().0),
+                    ] {
+                        let _ = ex.d[dmn].prim_tx.send(prim).await;
+                    }
+                    ex.quiesce().await;
+                }
+                for (i, dh) in ex.d.iter().enumerate() {
+                    if dh.task.is_finished() {
+                        ex.violations.push(("daemon-stopped".into(), "late-user-request".into(), format!("daemon {} stopped after user requests naming ended / unknown transactions", i)));
                     }
                 }
             }
@@ -1091,6 +1373,7 @@ pub fn run_schedule(scn: &DScn, prefix: &[usize]) -> RunResult {
         RunResult { points, acts, divergence, violations: std::mem::take(&mut ex.violations), completed, steps: step, real_steps_validated: ex.validated }
     });
     drop(rt);
+    heartbeat(None);
     res
 }
 
